@@ -326,8 +326,14 @@ def _nona(df, value = np.nan, edge = None):
     while len(mask.shape) > 1:
         mask = mask.all(axis = 1)
     res = df[~mask]
-    if edge is None or len(res) == 0 or not is_pd(df):
+    if edge is None or len(res) == 0:
         return res
+    elif not is_pd(df): ## an array is cut at the positions of its first/last surviving row
+        keep = np.where(~mask)[0]
+        if edge == 1:
+            return df[:keep[-1] + 1]
+        elif edge == -1:
+            return df[keep[0]:]
     elif edge == 1: ## cut only latest values
         return df_slice(df, ub = res.index[-1], openclose = '[]')
     elif edge == -1: ## cut only historic values
